@@ -241,6 +241,7 @@ def check(res):
     for b in base:
         for m in mutants(rnd, b[:20000], per): add(m.encode("utf8", "surrogateescape"), "mutant")
     for b in base: add(b.encode("utf8", "surrogateescape"), "valid")
+    for b in progs.nested_scope_programs(seed, 400 if tier == "quick" else 6000): add(b.encode("utf8"), "nested-scopes")
     for pr in probes(tier): add(enc(pr), "probe")
     for _ in range(2000 if tier == "quick" else 40000):
         add(bytes(rnd.randrange(256) for _ in range(rnd.randint(1, 40))), "random-bytes")
@@ -263,7 +264,7 @@ def check(res):
         else: new.append((k, m, s, o))
     res.oblige("search: %d byte sequences x 3 modes: code object or located SyntaxError-family exception, no panic, no hang" % len(srcs), not new, str(new[:1])[:300])
     res.coverage.update(evaluations=3 * len(srcs) + len(streams), distinct_nontrivial=cnt["code"] + sum(1 for o in obs if not o.startswith("PANIC")), programs=len(srcs),
-        rule="exhaustive sequences of length <= %d over an alphabet of %d tokens/fragments (keywords, operators, literals incl. malformed ones, indentation, control bytes, non-ASCII), joined with and without spaces and with a final newline; seeded random sequences of length 3-10; %d token mutations (delete/insert/replace/swap/duplicate) of each of %d base programs (every .py of the repository and generator programs); the unmutated programs; %d structured probes (statement forms x enclosing contexts, parameter and argument list forms, forbidden targets, size extremes: 300 arguments, 3000 (quick) / 70000 (thorough) constants and names, nesting depth up to 1200, bodies over 64K of bytecode in every jump-carrying statement, extension cascades around the 64K boundary, huge literals/lines); random byte strings; all three modes; 30 s watchdog per compilation (600 s for sources over 200 KB: the constant table lookup is quadratic); non-trivial = a code object came out" % (maxlen, len(ALPHA), per, len(base), len(probes(tier))),
+        rule="exhaustive sequences of length <= %d over an alphabet of %d tokens/fragments (keywords, operators, literals incl. malformed ones, indentation, control bytes, non-ASCII), joined with and without spaces and with a final newline; seeded random sequences of length 3-10; %d token mutations (delete/insert/replace/swap/duplicate) of each of %d base programs (every .py of the repository and generator programs); the unmutated programs; random and systematic nestings of def/class/lambda/comprehension with names bound, read, deleted, declared global/nonlocal at every level; %d structured probes (statement forms x enclosing contexts, parameter and argument list forms, forbidden targets, size extremes: 300 arguments, 3000 (quick) / 70000 (thorough) constants and names, nesting depth up to 1200, bodies over 64K of bytecode in every jump-carrying statement, extension cascades around the 64K boundary, huge literals/lines); random byte strings; all three modes; 30 s watchdog per compilation (600 s for sources over 200 KB: the constant table lookup is quadratic); non-trivial = a code object came out" % (maxlen, len(ALPHA), per, len(base), len(probes(tier))),
         samples=[dict(source=srcs[777].decode("latin-1")[:80], result=results[777])],
         distribution=dict(kinds=dict(collections.Counter(kinds)), outcomes=dict(cnt), assembler_outcomes=dict(okind)),
         modelled_not_verified=["lexer, grammar actions, symbol table pass 1 and compile.go are searched, not proved", "stack-depth computation"])
